@@ -40,6 +40,11 @@ func runLBHealth(x *X) {
 	active := c.Intn(3, "active") == 2
 	interval := 2 + c.Intn(8, "interval")
 	ptimeout := 1 + c.Intn(interval-1, "ptimeout")
+	if c.Intn(5, "probe-timeout-not-below-interval") == 0 {
+		// a probe may still be running when the next round is due (the validator accepts it)
+		interval = 1 + c.Intn(3, "short-interval")
+		ptimeout = interval + c.Intn(3, "timeout-over-interval")
+	}
 	if !passive && !active {
 		passive = true
 	}
